@@ -395,8 +395,8 @@ def where_guard_ob(prog):
             b, k = _where_guard_violations(tree, prog.relpath(mod), lambda l, mod=mod: prog.qualname_at(mod, l))
             bad += b
             sites += k
-        if sites < 6:
-            raise Undecided(f"only {sites} isfinite-guarded where sites found (floor 6)")
+        if sites < 3:
+            raise Undecided(f"only {sites} isfinite-guarded where sites found (floor 3)")
         if bad:
             raise Refuted("; ".join(bad[:2]), bad[0].split(":")[0] + "::" + bad[0].split(" in ")[1].split(":")[0], bad)
         return [], dict(sites=sites)
